@@ -32,11 +32,17 @@ def main():
             shutil.copytree("/repo/inferno", os.path.join(tmp, "inferno"), ignore=shutil.ignore_patterns("__pycache__"))
             path = os.path.join(tmp, m["file"])
             src = open(path).read()
-            if src.count(m["old"]) != 1:
+            nth = m.get("nth")
+            if nth is None and src.count(m["old"]) != 1 or nth is not None and src.count(m["old"]) <= nth:
                 rows.append({"id": m["id"], "error": f"anchor text found {src.count(m['old'])} times"})
                 print(f"{m['id']}: ANCHOR NOT UNIQUE ({src.count(m['old'])})")
                 continue
-            open(path, "w").write(src.replace(m["old"], m["new"]))
+            if nth is None:
+                src = src.replace(m["old"], m["new"])
+            else:
+                parts = src.split(m["old"])
+                src = m["old"].join(parts[: nth + 1]) + m["new"] + m["old"].join(parts[nth + 1:])
+            open(path, "w").write(src)
             for pid in m["props"]:
                 if props and pid not in props:
                     continue
